@@ -109,8 +109,13 @@ func (p *PIDZero) reloadAllRunnables() int {
 
 			if stateable, ok := r.(Stateable); ok {
 				postState := stateable.GetState()
-				p.stateMap.Store(r, postState)
+				prev, loaded := p.stateMap.Swap(r, postState)
 				p.logger.Debug("Post-reload state", "runnable", r, "state", postState)
+				if !loaded || prev != postState {
+					// The runnable's monitor has not reported this state (it may not even be
+					// subscribed yet); subscribers must not miss a change of the state map.
+					p.broadcastState()
+				}
 			}
 
 			continue
